@@ -1980,7 +1980,7 @@ func reflectGetSlice(data any, start, end, step int) (va []any) {
 			if size < end {
 				end = size
 			}
-			if 0 <= start && start < size {
+			if 0 <= start && start < size && step != 0 {
 				if 0 < step {
 					for i := start; i < end; i += step {
 						rv := rd.Index(i)
